@@ -218,6 +218,15 @@ class Ctx:
         if h == "proj" and e[2] == "0" and e[1][0] == "bin" and e[1][1].endswith("WithOverflow"):
             op = e[1][1][:-len("WithOverflow")]
             return self.lin(("bin", op, e[1][2], e[1][3]), depth + 1)
+        if h in ("proj", "call") and self.u is not None:
+            rp = self.ret_path(e)
+            if rp is not None and rp[1] == ():
+                sm = accum_helper_summary(self.u, rp[0][3])
+                if sm is not None and max(sm[:2]) < len(rp[0][2]):
+                    # L-ALLOC through a helper: result = accumulator argument + sum of the lengths of the collection's payloads
+                    acc, coll = rp[0][2][sm[0]], rp[0][2][sm[1]]
+                    USED_LEMMAS["L-ALLOC"] = USED_LEMMAS.get("L-ALLOC", 0) + 1
+                    return self.lin(acc, depth + 1) + self.atom(("len", ("sumlen", L_freeze(coll))), 0, ALLOC_TOTAL)
         if h == "bin":
             op = e[1]
             if op in ("Add", "Sub"):
@@ -792,6 +801,10 @@ class Ctx:
                     cur = sym.expr(self.b, t["args"][0])
                     txt = sym.show(cur)
                     if ("[%s]" % coll) in txt and ("iter" in txt):
+                        return True
+                    # the collection is a parameter iterated directly (`for x in xs`)
+                    if coll.startswith("arg") and coll[3:].isdigit() and "iter" in txt and any(
+                            isinstance(y, tuple) and len(y) > 1 and ((y[0] == "arg" and y[1] == int(coll[3:])) or (y[0] in ("load", "refplace") and y[1] == coll)) for y in sym.walk(cur)):
                         return True
         return False
 
@@ -1645,6 +1658,58 @@ def param_facts(u, fn):
                     out.append(("le_len", j, "arg%d" % k))
     _PF[fn] = out
     return out
+
+
+_ACCUM = {}
+
+
+def accum_helper_summary(u, fn):
+    """(accumulator param index, collection param index) if fn(acc, &[T]) returns Ok(acc + sum of len(x.<buf>) over the
+    collection) through checked additions; None otherwise"""
+    if fn in _ACCUM:
+        return _ACCUM[fn]
+    _ACCUM[fn] = None
+    from . import flow
+    b = u.bodies[fn]
+    if b["argc"] != 2:
+        return None
+    cx = Ctx(b, u)
+    exits = [e for e in flow.exits(b) if e["kind"] == "ok"]
+    if not exits:
+        return None
+    vals = set()
+    for ex in exits:
+        v = sym.expr_rv(b, ex["node"]["rv"])
+        if v[0] != "agg" or len(v[3]) != 1 or v[3][0][0] != "var":
+            return None
+        vals.add(v[3][0][1])
+    if len(vals) != 1:
+        return None
+    l = vals.pop()
+    ds = cx.defs.get(l, [])
+    if cx.pdefs.get(l) or len(ds) < 2:
+        return None
+    acc = coll = fld = None
+    for d in ds:
+        if d[0] != "stmt":
+            return None
+        e = sym.expr_rv(b, d[3]["rv"], stop=(l,))
+        if e[0] == "arg" and b["locals"][e[1]]["ty"] in INT_RANGE:
+            acc = e[1] - 1
+            continue
+        if cx.length_accumulation(e, l, d[1]):
+            for y in sym.walk(e):
+                if isinstance(y, tuple) and len(y) > 1 and y[0] in ("load", "refplace") and isinstance(y[1], str) and ".[]." in y[1] and y[1].startswith("arg"):
+                    k = y[1].split(".")[0][3:]
+                    if k.isdigit():
+                        coll = int(k) - 1
+                        fld = y[1].split(".[].")[1]
+            continue
+        return None
+    if acc is None or coll is None or acc == coll:
+        return None
+    _ACCUM[fn] = (acc, coll, fld)
+    return _ACCUM[fn]
 
 
 _BITACC = {}
